@@ -9,7 +9,8 @@ EXPECTED_UNREACHABLE = {
     'l0.structure:TokenStore._update_block#SMOKE-path3',       # the re-index guard after rebuild(): indexes are always fresh since fix c7e0fd9
     'l1.tokens:Position.__iadd__#SMOKE-path0',
     'l2.base:RawModel.detach#SMOKE-path0',                     # `return []` for a falsy store: the contract covers tree models, whose store holds >= 1 token
-    'l2.base:RawModel.detach#SMOKE-path2',                     # `if tokens:` false: same reason                 # `return NotImplemented`: the contract restricts `other` to Position
+    'l2.base:RawModel.detach#SMOKE-path2',
+    'l2.base:RawModel.tokens#SMOKE-path0',                     # `return []` for a falsy store / missing ends: excluded by the precondition (tree models)                     # `if tokens:` false: same reason                 # `return NotImplemented`: the contract restricts `other` to Position
 }
 
 UNITS = [
